@@ -111,6 +111,7 @@ func runC02(c *Ctx) {
 		{"one.F3", one, vrt.Budget{F: 3}, cutw},
 		{"N2.F2", mixed, vrt.Budget{F: 2}, cut},
 		{"one.F2.P1", one[:1], vrt.Budget{F: 2, P: 1, Total: 3}, cut},
+		{"one.F2.S1", one, vrt.Budget{F: 2, S: 1, Total: 3}, cut},
 		{"manual.one.F2", one, vrt.Budget{F: 2}, cutw},
 		{"eofwrite.one.F2", one, vrt.Budget{F: 2}, env.FaultSet{WriteErr: true, AckLost: true}},
 		{"slow-onerror.one.F2", one, vrt.Budget{F: 2}, cut},
@@ -284,6 +285,7 @@ func runC03(c *Ctx) {
 		{"N3.F2.pub", 3, []string{"p1"}, []byte{'N'}, vrt.Budget{F: 2}, cl},
 		{"manual.N2.F1", 2, []string{"p1", "p2", "sub"}, []byte{'B', 'N'}, vrt.Budget{F: 1}, cut},
 		{"slow-onerror.N2.F1", 2, []string{"p1", "p2", "sub"}, []byte{'S', 'N', 'O'}, vrt.Budget{F: 1}, cut},
+		{"N2.F1.S1", 2, []string{"p1", "p2"}, []byte{'N', 'O', 'H'}, vrt.Budget{F: 1, S: 1, Total: 2}, cl},
 	}
 	quickN := len(fams) // the thorough tier runs the quick families first, unchanged, then the deeper ones
 	if c.Thorough() {
@@ -408,6 +410,7 @@ func runC12(c *Ctx) {
 		{"manual.one.F2", one, vrt.Budget{F: 2}, cut},
 		{"repeat-pubrec.one.F2", one, vrt.Budget{F: 2}, cut},
 		{"slow-onerror.one.F2", one, vrt.Budget{F: 2}, cut},
+		{"one.F2.S1", one, vrt.Budget{F: 2, S: 1, Total: 3}, cut},
 	}
 	if c.Thorough() { // after the quick families
 		fams = append(fams, []fam{
